@@ -515,7 +515,7 @@ impl IsoCtx {
             }
         }
     }
-    fn pair_of(&self, k: usize) -> (usize, usize, usize) {
+    pub fn pair_of(&self, k: usize) -> (usize, usize, usize) {
         let n = self.singles.len();
         let per = n * (n - 1) / 2;
         let bi = k / per;
@@ -661,9 +661,26 @@ pub fn run(rep: &mut Report) {
         Ok((agg, deaths)) => {
             rep.agg.merge(agg);
             rep.agg.add("process_deaths", deaths.len() as u64);
+            // a pair that dies is attributed to a member that already dies on its own (same field,
+            // same value): the pair adds nothing to that single finding
+            let died_single: std::collections::BTreeMap<String, String> = deaths
+                .iter()
+                .filter(|d| d.job < ctx.n_single)
+                .map(|d| (mutn_label(&ctx.singles_huge[d.job % ctx.singles_huge.len()]), ctx.death_class(d.job)))
+                .collect();
             for d in &deaths {
                 let kind = if d.how.starts_with("watchdog") { "watchdog" } else { "process-death" };
-                let class = format!("{kind}[{}]", ctx.death_class(d.job));
+                let mut dc = ctx.death_class(d.job);
+                if d.job >= ctx.n_single && d.job < ctx.n_single + ctx.n_pair {
+                    let (_bi, i, j) = ctx.pair_of(d.job - ctx.n_single);
+                    for m in [&ctx.singles[i], &ctx.singles[j]] {
+                        if let Some(c) = died_single.get(&mutn_label(m)) {
+                            dc = c.clone();
+                            break;
+                        }
+                    }
+                }
+                let class = format!("{kind}[{}]", dc);
                 let desc = ctx.describe(d.job);
                 let how = d.how.clone();
                 let job = d.job;
